@@ -379,6 +379,19 @@ def witness_search(tier, seed):
                 b = Beat(x)
                 if b.denominator not in (1, 2, 3, 4, 6, 8, 12, 16, 24, 48) or abs(b - q) > Fraction(1, 96):
                     return dict(input=f"Beat({x!r})", detail=f"got {b!r}: not the nearest multiple of 1/48")
+    # equal numbers of different types, one after the other: what a Beat is built from decides whether it is snapped
+    for dec, frac in (("0.1", Fraction(1, 10)), ("0.07", Fraction(7, 100)), ("0.3", Fraction(3, 10)), ("2.01", Fraction(201, 100))):
+        for order in ("decimal-first", "fraction-first"):
+            seq = [Decimal(dec), frac, float(dec), frac, Decimal(dec)] if order == "decimal-first" else [frac, Decimal(dec), frac, float(dec)]
+            for x in seq:
+                b = Beat(x)
+                exact = isinstance(x, Fraction)
+                if exact and b != x:
+                    return dict(input=f"Beat({x!r}) after {[repr(y) for y in seq[:seq.index(x)]]}", detail=f"got {b!r}: a fraction is taken exactly")
+                if not exact and (b.denominator not in (1, 2, 3, 4, 6, 8, 12, 16, 24, 48) or abs(b - Fraction(dec)) > Fraction(1, 96)):
+                    return dict(input=f"Beat({x!r}) after {[repr(y) for y in seq[:seq.index(x)]]}", detail=f"got {b!r}: not the nearest multiple of 1/48")
+            if Beat(1, 20) + Beat(1, 20) != Fraction(1, 10) or Beat(1) / 10 != Fraction(1, 10):
+                return dict(input="Beat(1, 20) + Beat(1, 20) after Beat(Decimal('0.1'))", detail="arithmetic is not exact any more")
     # how the timing strings of a simfile reach the engine: the standard key wins over its legacy alias
     from simfile.sm import SMSimfile
     from simfile.timing import TimingData, BeatValues
